@@ -50,6 +50,18 @@ CLAIMS["C17"] = dict(
         "contents must equal the model's prediction; the same runs check the property directly on the implementation.",
    design="6/C17", technique="Coq proof over a fault-point file-system model + fault-injection correspondence with build.py and the CLI",
    note="Assumes os.replace is atomic; kills are simulated in-process (no further file operation takes effect after the kill point).")
+CLAIMS["C13"] = dict(
+   text="Coq theorems (Props/C13.v): for every grammar, the up-front check (model of validate_rule_names, the start/"
+        "trailer test and RuleCheckingVisitor driven by the extracted __iter__ table) accepts iff no rule/item name "
+        "starts with an underscore, a start rule or trailer exists, and every name referenced at ANY depth is a rule or "
+        "token -- under the decidable side condition fields_ok on the table, which is re-extracted from grammar.py and "
+        "re-proved (vm_compute) on every run, together with the dispatch table of RuleCheckingVisitor. Correspondence: "
+        "model vs PythonParserGenerator on grammars with a defect planted at every syntactic position (17 contexts and "
+        "nested pairs). The second half (accepted grammars never raise Name/AttributeError while parsing) is checked on the "
+        "implementation over accepted grammars x inputs in a sandboxed child process; one known finding (token names "
+        "without a runtime primitive).",
+   design="6/C13", technique="Coq proof parametric in extracted tables (re-extraction + instance lemma) + correspondence on planted defects",
+   note="The no-crash half rests on the generator/runtime models of C01/C05 for its proof; here it is validated by execution only.")
 NOT_YET = {}
 NOT_APPLICABLE = {
  "C06": "equates the generated parser with CPython's own C parser/ast.parse, for which no executable model exists "
